@@ -52,6 +52,7 @@ fn main() {
     std::fs::create_dir_all(&args.out).ok();
     let rc = match args.prop.as_str() {
         "c11" => props::c11::run(&args),
+        "c12" => props::c12::run(&args),
         "c13" => props::c13::run(&args),
         "c15" => props::c15::run(&args),
         "c16" => props::c16::run(&args),
